@@ -10,7 +10,9 @@ RULES = {
              "(default 10 and maximum 30 are read from the constants as compiled)",
     "R20.2": "cursor: the caller's cursor becomes an exclusive bound placed in the min slot of an Ascending range and in the max "
              "slot of a Descending range; the other slot is None; without cursor both slots are None",
-    "R20.3": "filters are applied before the page is cut: nothing filters the iterator after take()",
+    "R20.3": "filters are applied before the page is cut: nothing filters the iterator after take(); and between the range and "
+             "the cut only per-item filters (filter / filter_map) occur - nothing that ends the iteration early (take_while, "
+             "map_while) or passes over items by position (skip, skip_while, step_by)",
     "R20.4": "source: the range is over the map the listing is about and, for prefixed listings, under the prefix given by the "
              "query (owner / spender / proposal id)",
     "R20.5": "cursor encoding matches the key: address keys use ExclusiveRaw(<bytes of the address string>) or "
@@ -162,6 +164,13 @@ def check_listing(ctx, p, key, crate, variant, spec, L, item=None):
     ctx.ob("R20.3", key + "/filter before take", not L.after and not skipped,
            detail="the page is cut before filtering: %s" % ([show(x)[:120] for x in L.after] or "an element taken after take() is skipped by the loop body"),
            sample={"before": [show(x[2][1])[:80] for x in L.before], "page_how": L.page_how})
+    # ... and what sits between the range and the page cut only drops single items: an adapter that ends the iteration
+    # (take_while, map_while) or passes over items by position (skip, skip_while, step_by) hides everything behind an item
+    # from every later page as well
+    cutters = [x for x in L.before if not x[1].endswith(("Iterator::filter", "Iterator::filter_map"))]
+    ctx.ob("R20.3", key + "/only per-item filters before take", not cutters,
+           detail="the iteration is cut short or items are passed over by position before the page is taken: %s"
+                  % [x[1].split("::")[-1] + "(" + show(x[2][1])[:80] + ")" for x in cutters])
     # ---- R20.4
     src = rng[2][0]
     if prefix is None:
